@@ -238,7 +238,8 @@ class C06(AstKindProp):
                     fails.append({"what": "emitted over a file holding a near-identical program, the file does not hold the artefact", "variant": label, "kind": c["kind"]})
             # (2c) APPENDED to a hand-written file (last line terminated or not, a statement or a comment): the file holds
             # the old statements followed by the artefact
-            for label, old in (("terminated", "VERSION = 1\n"), ("unterminated", "import os\nVERSION = 1"), ("comment", "VERSION = 1\n# the end"), ("blank", "")):
+            for label, old in (("terminated", "VERSION = 1\n"), ("unterminated", "import os\nVERSION = 1"), ("comment", "VERSION = 1\n# the end"), ("blank", ""),
+                               ("blank_end", "VERSION = 1 "), ("comment_blank_end", "VERSION = 1\n# the end\t"), ("dangling_indent", "VERSION = 1\n    ")):
                 for skip_black in ((True, False) if label in ("unterminated", "comment") else (True,)):
                     fn = os.path.join(d, "app_%s_%s.py" % (label, skip_black))
                     with open(fn, "w") as fh:
